@@ -2975,48 +2975,64 @@ example : createSubscriptionText "sub 0".toList "mydb".toList "rp.1".toList .ANY
 
 /-! ### SHOW TAG VALUES -/
 
-/-- `[ON db] [FROM names] WITH KEY <op> <key> [WHERE cond] [LIMIT l] [OFFSET o]`. -/
-def showTagValuesText (db : Str) (names : List Str) (op : Token) (key : Expr) (c : Option Expr) (l o : Int) : Str :=
-  onDbText db ++ (fromText names ++ (withKeyText op key ++ (whereText c ++ (posText .LIMIT l ++ posText .OFFSET o))))
+/-- The continuations of the clauses `[WHERE cond] [ORDER BY …] [LIMIT l] [OFFSET o]` of the SHOW statements. -/
+theorem showOrder_follow (c : Option Expr) (sf : List SortField) (l o : Int) (k : Str) (hk : Follow k showStop) :
+    Follow (posText .OFFSET o ++ k) [.EXACT, .CARDINALITY, .ON, .FROM, .COMMA, .WITH, .WHERE, .ORDER, .LIMIT, .SLIMIT, .SOFFSET] ∧
+    Follow (posText .LIMIT l ++ (posText .OFFSET o ++ k)) [.EXACT, .CARDINALITY, .ON, .FROM, .COMMA, .WITH, .WHERE, .ORDER] ∧
+    Follow (orderText sf ++ (posText .LIMIT l ++ (posText .OFFSET o ++ k)))
+      [.EXACT, .CARDINALITY, .ON, .FROM, .COMMA, .WITH, .WHERE] ∧
+    Follow (whereText c ++ (orderText sf ++ (posText .LIMIT l ++ (posText .OFFSET o ++ k))))
+      [.EXACT, .CARDINALITY, .ON, .FROM, .COMMA, .WITH] := by
+  obtain ⟨g4, g3, _, _⟩ := show_follow [] c l o k hk
+  have gO : Follow (orderText sf ++ (posText .LIMIT l ++ (posText .OFFSET o ++ k)))
+      [.EXACT, .CARDINALITY, .ON, .FROM, .COMMA, .WITH, .WHERE] :=
+    Follow.opt (kwText_order _) (by decide +kernel) rfl (by decide) (g3.mono (by decide))
+  exact ⟨g4, g3, gO, Follow.opt (kwText_where _) (by decide +kernel) rfl (by decide) (gO.mono (by decide))⟩
 
-theorem showTagValues_print_partial (db : Str) (names : List Str) (op : Token) (key : Expr) (c : Option Expr) (l o : Int)
-    (h : ∀ m ∈ names, m ≠ []) :
-    (Statement.showTagValues db (names.map nameSrc) op (some key) c [] l o).print =
-      tx "SHOW TAG VALUES" ++ showTagValuesText db names op key c l o := by
-  have p1 : (Statement.showTagValues db (names.map nameSrc) op (some key) c [] l o).print =
+/-- `[ON db] [FROM names] WITH KEY <op> <key> [WHERE cond] [ORDER BY …] [LIMIT l] [OFFSET o]`. -/
+def showTagValuesText (db : Str) (names : List Str) (op : Token) (key : Expr) (c : Option Expr) (sf : List SortField)
+    (l o : Int) : Str :=
+  onDbText db ++ (fromText names ++ (withKeyText op key ++ (whereText c ++ (orderText sf ++
+    (posText .LIMIT l ++ posText .OFFSET o)))))
+
+theorem showTagValues_print_partial (db : Str) (names : List Str) (op : Token) (key : Expr) (c : Option Expr)
+    (sf : List SortField) (l o : Int) (h : ∀ m ∈ names, m ≠ []) (hsf : sortOKB sf = true) :
+    (Statement.showTagValues db (names.map nameSrc) op (some key) c sf l o).print =
+      tx "SHOW TAG VALUES" ++ showTagValuesText db names op key c sf l o := by
+  have p1 : (Statement.showTagValues db (names.map nameSrc) op (some key) c sf l o).print =
       tx "SHOW TAG VALUES" ++ clauseOn db ++ clauseFrom (names.map nameSrc) ++ printTagKey op key ++ clauseWhere c ++
-        clauseOrderBy [] ++ clausePos "LIMIT" l ++ clausePos "OFFSET" o := rfl
-  have e0 : clauseOrderBy [] = [] := rfl
-  rw [p1, clauseFrom_names names h, clauseWhere_eq, clauseOn_onDbText, (clausePos_eq l).1, (clausePos_eq o).2.1, e0,
-    printTagKey_eq]
+        clauseOrderBy sf ++ clausePos "LIMIT" l ++ clausePos "OFFSET" o := rfl
+  rw [p1, clauseFrom_names names h, clauseWhere_eq, clauseOn_onDbText, (clausePos_eq l).1, (clausePos_eq o).2.1,
+    clauseOrderBy_eq sf hsf, printTagKey_eq]
   simp only [showTagValuesText, List.append_assoc, List.append_nil]
 
 /-- **Print → parse, SHOW TAG VALUES** `[ON db] [FROM m1, …] WITH KEY = k | != k | =~ /re/ | !~ /re/ | IN (k1, k2, …)
-[WHERE cond] [LIMIT l] [OFFSET o]`, the key clause as `printTagKey` writes it (a string-literal key is printed
+[WHERE cond] [ORDER BY [time] ASC|DESC] [LIMIT l] [OFFSET o]`, the key clause as `printTagKey` writes it (a string-literal key is printed
 as identifier and read back by `ParseIdent` into a string literal). The key clause is complete: `tagKeyOKB`
 holds of every operator / key pair `parseTagKeyExpr` returns for a regex written as text (key names and the
-list of `IN` of any length).
+list of `IN` of any length); so is the sort clause (`sortOKB`: the lists `parseOrderBy` returns).
 Partial (as `showSeries_print_parse_partial`): sources are plain measurement names (not empty in the text
-equation: finding `empty-identifier-not-printed`), the condition is `Printable`, no `ORDER BY`. -/
+equation: finding `empty-identifier-not-printed`), the condition is `Printable`. -/
 theorem showTagValues_print_parse_partial (fuel : Nat) (s : PState) (db : Str) (names : List Str) (op : Token)
-    (key : Expr) (c : Option Expr) (l o : Int) (k : Str)
+    (key : Expr) (c : Option Expr) (sf : List SortField) (l o : Int) (k : Str)
     (hexdb : Expressible db) (hex : ∀ m ∈ names, Expressible m) (hkey : tagKeyOKB op key = true) (hc : CondOK c)
+    (hsf : sortOKB sf = true)
     (hl : 0 ≤ l ∧ l ≤ maxInt64) (ho : 0 ≤ o ∧ o ≤ maxInt64) (hk : Follow k showStop)
-    (hs : s.Before (showTagValuesText db names op key c l o ++ k)) :
+    (hs : s.Before (showTagValuesText db names op key c sf l o ++ k)) :
     wp (runHandler fuel .parseShowTagValuesStatement) s
-      (fun st s' => st = .showTagValues db (names.map nameSrc) op (some key) c [] l o ∧ RT.Stand s' k) (· = .fuel) := by
-  obtain ⟨g4, g3, g2, _⟩ := show_follow names c l o k hk
-  have gW : Follow (withKeyText op key ++ (whereText c ++ (posText .LIMIT l ++ (posText .OFFSET o ++ k))))
+      (fun st s' => st = .showTagValues db (names.map nameSrc) op (some key) c sf l o ∧ RT.Stand s' k) (· = .fuel) := by
+  obtain ⟨g4, g3, gO, g2⟩ := showOrder_follow c sf l o k hk
+  have gW : Follow (withKeyText op key ++ (whereText c ++ (orderText sf ++ (posText .LIMIT l ++ (posText .OFFSET o ++ k)))))
       [.EXACT, .CARDINALITY, .ON, .FROM, .COMMA] :=
     Follow.opt (kwText_withKey op key) (by decide +kernel) rfl (by decide) (g2.mono (by decide))
-  have gF : Follow (fromText names ++ (withKeyText op key ++ (whereText c ++ (posText .LIMIT l ++ (posText .OFFSET o ++ k)))))
+  have gF : Follow (fromText names ++ (withKeyText op key ++ (whereText c ++ (orderText sf ++ (posText .LIMIT l ++ (posText .OFFSET o ++ k))))))
       [.EXACT, .CARDINALITY, .ON] :=
     Follow.opt (kwText_from _) (by decide +kernel) rfl (by decide) (gW.mono (by decide))
-  have g0 : Follow (onDbText db ++ (fromText names ++ (withKeyText op key ++ (whereText c ++ (posText .LIMIT l ++
-      (posText .OFFSET o ++ k)))))) [.EXACT, .CARDINALITY] :=
+  have g0 : Follow (onDbText db ++ (fromText names ++ (withKeyText op key ++ (whereText c ++ (orderText sf ++ (posText .LIMIT l ++
+      (posText .OFFSET o ++ k))))))) [.EXACT, .CARDINALITY] :=
     Follow.opt (kwText_onDb _) (by decide +kernel) rfl (by decide) (gF.mono (by decide))
-  have hs0 : RT.Stand s (onDbText db ++ (fromText names ++ (withKeyText op key ++ (whereText c ++ (posText .LIMIT l ++
-      (posText .OFFSET o ++ k)))))) := by
+  have hs0 : RT.Stand s (onDbText db ++ (fromText names ++ (withKeyText op key ++ (whereText c ++ (orderText sf ++ (posText .LIMIT l ++
+      (posText .OFFSET o ++ k))))))) := by
     have := hs.stand
     simpa only [showTagValuesText, List.append_assoc] using this
   obtain ⟨_, T, hT, _, hnot⟩ := g0
@@ -3032,10 +3048,10 @@ theorem showTagValues_print_parse_partial (fuel : Nat) (s : PState) (db : Str) (
   rw [wp_bind, unscan_wp, wp_bind, wp_of_run_ok h3, wp_bind, wp_of_run_ok h4, wp_bind, wp_of_run_ok h5]
   dsimp only
   rw [wp_bind]
-  refine wp_mono (parseCondition_print fuel s5 c _ hc (g3.mono (by decide)) b5.stand) ?_ (fun _ h => h)
+  refine wp_mono (parseCondition_print fuel s5 c _ hc (gO.mono (by decide)) b5.stand) ?_ (fun _ h => h)
   intro c' s6 ⟨hc', st6⟩
   subst hc'
-  obtain ⟨s7, h7, st7⟩ := parseOrderBy_absent s6 _ (g3.mono (by decide)) st6
+  obtain ⟨s7, h7, st7⟩ := parseOrderBy_print s6 sf _ hsf (g3.mono (by decide)) st6
   obtain ⟨s8, h8, st8⟩ := parseOptTokInt_print .LIMIT (by decide +kernel) s7 l _ hl.1 hl.2 (g4.mono (by decide)) st7
   obtain ⟨s9, h9, st9⟩ := parseOptTokInt_print .OFFSET (by decide +kernel) s8 o k ho.1 ho.2 (hk.mono (by decide)) st8
   rw [wp_bind, wp_of_run_ok h7, wp_bind, wp_of_run_ok h8, wp_bind, wp_of_run_ok h9, wp_pure]
@@ -3043,14 +3059,14 @@ theorem showTagValues_print_parse_partial (fuel : Nat) (s : PState) (db : Str) (
 
 /-- Non-vacuity: the five forms of the key clause. -/
 def exKeyIn : Expr := .list ["host".toList, "my tag".toList, "select".toList]
-def exTagValuesText1 : Str := showTagValuesText "my db".toList exNames .IN exKeyIn exCond 10 3
-def exTagValuesText2 : Str := showTagValuesText [] [] .NEQREGEX (.regex "^a/b".toList) none 0 0
-def exTagValuesText3 : Str := showTagValuesText [] ["cpu".toList] .EQ (.string "my tag".toList) none 5 0
+def exTagValuesText1 : Str := showTagValuesText "my db".toList exNames .IN exKeyIn exCond exSort 10 3
+def exTagValuesText2 : Str := showTagValuesText [] [] .NEQREGEX (.regex "^a/b".toList) none [] 0 0
+def exTagValuesText3 : Str := showTagValuesText [] ["cpu".toList] .EQ (.string "my tag".toList) none [⟨[], true⟩] 5 0
 
 example : exTagValuesText1 = (" ON \"my db\" FROM cpu, \"my m\" WITH KEY IN (host, \"my tag\", \"select\") " ++
-      "WHERE host = 'a' AND (x > -1 OR y =~ /^b/) LIMIT 10 OFFSET 3").toList ∧
+      "WHERE host = 'a' AND (x > -1 OR y =~ /^b/) ORDER BY time DESC LIMIT 10 OFFSET 3").toList ∧
     exTagValuesText2 = " WITH KEY !~ /^a\\/b/".toList ∧
-    exTagValuesText3 = " FROM cpu WITH KEY = \"my tag\" LIMIT 5".toList := by decide +kernel
+    exTagValuesText3 = " FROM cpu WITH KEY = \"my tag\" ORDER BY ASC LIMIT 5".toList := by decide +kernel
 
 example : tagKeyOKB .IN exKeyIn = true ∧ tagKeyOKB .NEQREGEX (.regex "^a/b".toList) = true ∧
     tagKeyOKB .EQ (.string "my tag".toList) = true ∧ tagKeyOKB .NEQ (.string []) = true ∧
@@ -3060,17 +3076,19 @@ example : tagKeyOKB .IN exKeyIn = true ∧ tagKeyOKB .NEQREGEX (.regex "^a/b".to
 section
 attribute [local irreducible] wp
 example : wp (runHandler 200 .parseShowTagValuesStatement) (PState.init exTagValuesText1 [] [])
-    (fun st s' => st = .showTagValues "my db".toList (exNames.map nameSrc) .IN (some exKeyIn) exCond [] 10 3 ∧
+    (fun st s' => st = .showTagValues "my db".toList (exNames.map nameSrc) .IN (some exKeyIn) exCond exSort 10 3 ∧
       RT.Stand s' [eofRune]) (· = .fuel) :=
-  showTagValues_print_parse_partial 200 (PState.init exTagValuesText1 [] []) "my db".toList exNames .IN exKeyIn exCond 10 3
-    [eofRune] (by decide +kernel) (by decide +kernel) (by decide +kernel) (by decide +kernel) (by decide) (by decide)
+  showTagValues_print_parse_partial 200 (PState.init exTagValuesText1 [] []) "my db".toList exNames .IN exKeyIn exCond exSort 10 3
+    [eofRune] (by decide +kernel) (by decide +kernel) (by decide +kernel) (by decide +kernel) (by decide +kernel) (by decide)
+    (by decide)
     (Follow.eof _ (by decide)) (init_before exTagValuesText1 (by decide +kernel))
 
 example : wp (runHandler 200 .parseShowTagValuesStatement) (PState.init exTagValuesText2 [] [])
     (fun st s' => st = .showTagValues [] [] .NEQREGEX (some (.regex "^a/b".toList)) none [] 0 0 ∧
       RT.Stand s' [eofRune]) (· = .fuel) :=
-  showTagValues_print_parse_partial 200 (PState.init exTagValuesText2 [] []) [] [] .NEQREGEX (.regex "^a/b".toList) none 0 0
-    [eofRune] (by decide +kernel) (by decide +kernel) (by decide +kernel) (by decide +kernel) (by decide) (by decide)
+  showTagValues_print_parse_partial 200 (PState.init exTagValuesText2 [] []) [] [] .NEQREGEX (.regex "^a/b".toList) none [] 0 0
+    [eofRune] (by decide +kernel) (by decide +kernel) (by decide +kernel) (by decide +kernel) (by decide +kernel) (by decide)
+    (by decide)
     (Follow.eof _ (by decide)) (init_before exTagValuesText2 (by decide +kernel))
 end
 
@@ -3079,23 +3097,23 @@ example : (match (runHandler 200 .parseShowTagValuesStatement).run (PState.init 
     | .ok _ => true
     | .error _ => false) = true ∧
     (match (runHandler 200 .parseShowTagValuesStatement).run (PState.init exTagValuesText3 [] []) with
-    | .ok (.showTagValues [] [.measurement m] .EQ (some (.string v)) none [] 5 0, _) =>
-      m.name == "cpu".toList && v == "my tag".toList
+    | .ok (.showTagValues [] [.measurement m] .EQ (some (.string v)) none [f] 5 0, _) =>
+      m.name == "cpu".toList && v == "my tag".toList && f.name == [] && f.ascending
     | _ => false) = true := by decide +kernel
 
 /-! ### SHOW MEASUREMENTS with `ON` and `WITH MEASUREMENT` -/
 
-/-- `[ON db[.rp] | ON * | ON *.* …] [WITH MEASUREMENT = m | =~ /re/] [WHERE cond] [LIMIT l] [OFFSET o]`. -/
-def showMeasText (db rp : Str) (wdb wrp : Bool) (m : MeasSpec) (c : Option Expr) (l o : Int) : Str :=
-  onMeasText db rp wdb wrp ++ (withMeasText m ++ (whereText c ++ (posText .LIMIT l ++ posText .OFFSET o)))
+/-- `[ON db[.rp] | ON * | ON *.* …] [WITH MEASUREMENT = m | =~ /re/] [WHERE cond] [ORDER BY …] [LIMIT l] [OFFSET o]`. -/
+def showMeasText (db rp : Str) (wdb wrp : Bool) (m : MeasSpec) (c : Option Expr) (sf : List SortField) (l o : Int) : Str :=
+  onMeasText db rp wdb wrp ++ (withMeasText m ++ (whereText c ++ (orderText sf ++ (posText .LIMIT l ++ posText .OFFSET o))))
 
 /-- The text equation; a measurement name is not empty (finding `empty-identifier-not-printed`:
 `WITH MEASUREMENT = ""` prints no name). -/
-theorem showMeasurements_full_print_partial (db rp : Str) (wdb wrp : Bool) (m : MeasSpec) (c : Option Expr) (l o : Int)
-    (hm : ∀ n, m = .name n → n ≠ []) :
-    (Statement.showMeasurements db rp wdb wrp m.source c [] l o).print =
-      tx "SHOW MEASUREMENTS" ++ showMeasText db rp wdb wrp m c l o := by
-  have p1 : (Statement.showMeasurements db rp wdb wrp m.source c [] l o).print =
+theorem showMeasurements_full_print_partial (db rp : Str) (wdb wrp : Bool) (m : MeasSpec) (c : Option Expr)
+    (sf : List SortField) (l o : Int) (hm : ∀ n, m = .name n → n ≠ []) (hsf : sortOKB sf = true) :
+    (Statement.showMeasurements db rp wdb wrp m.source c sf l o).print =
+      tx "SHOW MEASUREMENTS" ++ showMeasText db rp wdb wrp m c sf l o := by
+  have p1 : (Statement.showMeasurements db rp wdb wrp m.source c sf l o).print =
       tx "SHOW MEASUREMENTS" ++
       (if db ≠ [] ∨ wdb then
         tx " ON " ++ (if wdb then tx "*" else qi db) ++
@@ -3106,8 +3124,7 @@ theorem showMeasurements_full_print_partial (db rp : Str) (wdb wrp : Bool) (m : 
        | some (.measurement m) =>
          tx " WITH MEASUREMENT " ++ (if m.regex.isSome then tx "=~ " else tx "= ") ++ m.print
        | some x => tx " WITH MEASUREMENT = " ++ x.print) ++
-      clauseWhere c ++ clauseOrderBy [] ++ clausePos "LIMIT" l ++ clausePos "OFFSET" o := rfl
-  have e0 : clauseOrderBy [] = [] := rfl
+      clauseWhere c ++ clauseOrderBy sf ++ clausePos "LIMIT" l ++ clausePos "OFFSET" o := rfl
   have eon : (if db ≠ [] ∨ wdb then
         tx " ON " ++ (if wdb then tx "*" else qi db) ++
         (if wrp then tx ".*" else if rp ≠ [] then tx "." ++ qi rp else [])
@@ -3147,35 +3164,40 @@ theorem showMeasurements_full_print_partial (db rp : Str) (wdb wrp : Bool) (m : 
         Measurement.print { regex := some src } = _
       rw [hp, e1, e2]
       simp [withMeasText]
-  rw [p1, eon, ems, clauseWhere_eq, (clausePos_eq l).1, (clausePos_eq o).2.1, e0]
+  rw [p1, eon, ems, clauseWhere_eq, (clausePos_eq l).1, (clausePos_eq o).2.1, clauseOrderBy_eq sf hsf]
   simp only [showMeasText, List.append_assoc, List.append_nil]
 
 /-- The tokens that continue a SHOW MEASUREMENTS statement: those of `showStop` and `.` (after `ON db`). -/
 def showMeasStop : List Token := .DOT :: showStop
 
 /-- **Print → parse, SHOW MEASUREMENTS** `[ON db | ON db.rp | ON * | ON *.* | ON db.* | ON *.rp]
-[WITH MEASUREMENT = m | WITH MEASUREMENT =~ /re/] [WHERE cond] [LIMIT l] [OFFSET o]`.
+[WITH MEASUREMENT = m | WITH MEASUREMENT =~ /re/] [WHERE cond] [ORDER BY [time] ASC|DESC] [LIMIT l] [OFFSET o]`.
 Partial: `OnMeasOK` excludes `ON "".rp` / `ON "".*` (finding `empty-identifier-not-printed`: the clause is not
 printed when the database is the empty name); the measurement of `WITH MEASUREMENT` is a plain name (no
 database / retention policy qualification) or a regex that can be written as text; the condition is
-`Printable`; no `ORDER BY`. `WITH MEASUREMENT = /re/` (accepted by the parser) yields the same statement as `=~`. -/
+`Printable`. The sort clause is complete (`sortOKB`: the lists `parseOrderBy` returns). `WITH MEASUREMENT = /re/`
+(accepted by the parser) yields the same statement as `=~`. -/
 theorem showMeasurements_full_print_parse_partial (fuel : Nat) (s : PState) (db rp : Str) (wdb wrp : Bool) (m : MeasSpec)
-    (c : Option Expr) (l o : Int) (k : Str)
+    (c : Option Expr) (sf : List SortField) (l o : Int) (k : Str)
     (hex1 : Expressible db) (hex2 : Expressible rp) (hon : OnMeasOK db rp wdb wrp) (hm : m.okB = true) (hc : CondOK c)
+    (hsf : sortOKB sf = true)
     (hl : 0 ≤ l ∧ l ≤ maxInt64) (ho : 0 ≤ o ∧ o ≤ maxInt64) (hk : Follow k showMeasStop)
-    (hs : s.Before (showMeasText db rp wdb wrp m c l o ++ k)) :
+    (hs : s.Before (showMeasText db rp wdb wrp m c sf l o ++ k)) :
     wp (runHandler fuel .parseShowMeasurementsStatement) s
-      (fun st s' => st = .showMeasurements db rp wdb wrp m.source c [] l o ∧ RT.Stand s' k) (· = .fuel) := by
-  have g4 : Follow (posText .OFFSET o ++ k) [.DOT, .ON, .WITH, .WHERE, .ORDER, .LIMIT] :=
+      (fun st s' => st = .showMeasurements db rp wdb wrp m.source c sf l o ∧ RT.Stand s' k) (· = .fuel) := by
+  have g4 : Follow (posText .OFFSET o ++ k) [.DOT, .ON, .WITH, .WHERE, .ORDER, .COMMA, .LIMIT] :=
     Follow.opt (kwText_pos _ _) (by decide +kernel) rfl (by decide) (hk.mono (by decide))
-  have g3 : Follow (posText .LIMIT l ++ (posText .OFFSET o ++ k)) [.DOT, .ON, .WITH, .WHERE, .ORDER] :=
+  have g3 : Follow (posText .LIMIT l ++ (posText .OFFSET o ++ k)) [.DOT, .ON, .WITH, .WHERE, .ORDER, .COMMA] :=
     Follow.opt (kwText_pos _ _) (by decide +kernel) rfl (by decide) (g4.mono (by decide))
-  have g2 : Follow (whereText c ++ (posText .LIMIT l ++ (posText .OFFSET o ++ k))) [.DOT, .ON, .WITH] :=
-    Follow.opt (kwText_where _) (by decide +kernel) rfl (by decide) (g3.mono (by decide))
-  have g1 : Follow (withMeasText m ++ (whereText c ++ (posText .LIMIT l ++ (posText .OFFSET o ++ k)))) [.DOT, .ON] :=
+  have gO : Follow (orderText sf ++ (posText .LIMIT l ++ (posText .OFFSET o ++ k))) [.DOT, .ON, .WITH, .WHERE] :=
+    Follow.opt (kwText_order _) (by decide +kernel) rfl (by decide) (g3.mono (by decide))
+  have g2 : Follow (whereText c ++ (orderText sf ++ (posText .LIMIT l ++ (posText .OFFSET o ++ k)))) [.DOT, .ON, .WITH] :=
+    Follow.opt (kwText_where _) (by decide +kernel) rfl (by decide) (gO.mono (by decide))
+  have g1 : Follow (withMeasText m ++ (whereText c ++ (orderText sf ++ (posText .LIMIT l ++ (posText .OFFSET o ++ k)))))
+      [.DOT, .ON] :=
     Follow.opt (kwText_withMeas _) (by decide +kernel) rfl (by decide) (g2.mono (by decide))
-  have hs0 : RT.Stand s (onMeasText db rp wdb wrp ++ (withMeasText m ++ (whereText c ++ (posText .LIMIT l ++
-      (posText .OFFSET o ++ k))))) := by
+  have hs0 : RT.Stand s (onMeasText db rp wdb wrp ++ (withMeasText m ++ (whereText c ++ (orderText sf ++ (posText .LIMIT l ++
+      (posText .OFFSET o ++ k)))))) := by
     have := hs.stand
     simpa only [showMeasText, List.append_assoc] using this
   obtain ⟨s1, h1, st1⟩ := parseOnMeas_print s db rp wdb wrp _ hex1 hex2 hon (g1.mono (by decide)) hs0
@@ -3184,10 +3206,10 @@ theorem showMeasurements_full_print_parse_partial (fuel : Nat) (s : PState) (db 
   rw [parseShowMeasurements_eq, wp_bind, wp_of_run_ok h1]
   dsimp only
   rw [wp_bind, wp_of_run_ok h2, wp_bind]
-  refine wp_mono (parseCondition_print fuel s2 c _ hc (g3.mono (by decide)) st2) ?_ (fun _ h => h)
+  refine wp_mono (parseCondition_print fuel s2 c _ hc (gO.mono (by decide)) st2) ?_ (fun _ h => h)
   intro c' s5 ⟨hc', st5⟩
   subst hc'
-  obtain ⟨s6, h6, st6⟩ := parseOrderBy_absent s5 _ (g3.mono (by decide)) st5
+  obtain ⟨s6, h6, st6⟩ := parseOrderBy_print s5 sf _ hsf (g3.mono (by decide)) st5
   obtain ⟨s7, h7, st7⟩ := parseOptTokInt_print .LIMIT (by decide +kernel) s6 l _ hl.1 hl.2 (g4.mono (by decide)) st6
   obtain ⟨s8, h8, st8⟩ := parseOptTokInt_print .OFFSET (by decide +kernel) s7 o k ho.1 ho.2 (hk.mono (by decide)) st7
   rw [wp_bind, wp_of_run_ok h6, wp_bind, wp_of_run_ok h7, wp_bind, wp_of_run_ok h8, wp_pure]
@@ -3195,13 +3217,13 @@ theorem showMeasurements_full_print_parse_partial (fuel : Nat) (s : PState) (db 
 
 /-- Non-vacuity: `ON "my db"."rp.1" WITH MEASUREMENT = "my m" WHERE … LIMIT 10 OFFSET 3`, `ON *.* WITH MEASUREMENT =~ /^c\/pu/`,
 `ON db0.*`, `ON *`. -/
-def exMeasText1 : Str := showMeasText "my db".toList "rp.1".toList false false (.name "my m".toList) exCond 10 3
-def exMeasText2 : Str := showMeasText [] [] true true (.regex "^c/pu".toList) none 0 0
-def exMeasText3 : Str := showMeasText "db0".toList [] false true .none none 0 2
-def exMeasText4 : Str := showMeasText [] [] true false .none none 0 0
+def exMeasText1 : Str := showMeasText "my db".toList "rp.1".toList false false (.name "my m".toList) exCond exSort 10 3
+def exMeasText2 : Str := showMeasText [] [] true true (.regex "^c/pu".toList) none [] 0 0
+def exMeasText3 : Str := showMeasText "db0".toList [] false true .none none [] 0 2
+def exMeasText4 : Str := showMeasText [] [] true false .none none [] 0 0
 
 example : exMeasText1 = (" ON \"my db\".\"rp.1\" WITH MEASUREMENT = \"my m\" " ++
-      "WHERE host = 'a' AND (x > -1 OR y =~ /^b/) LIMIT 10 OFFSET 3").toList ∧
+      "WHERE host = 'a' AND (x > -1 OR y =~ /^b/) ORDER BY time DESC LIMIT 10 OFFSET 3").toList ∧
     exMeasText2 = " ON *.* WITH MEASUREMENT =~ /^c\\/pu/".toList ∧
     exMeasText3 = " ON db0.* OFFSET 2".toList ∧ exMeasText4 = " ON *".toList := by decide +kernel
 
@@ -3212,26 +3234,26 @@ example : OnMeasOK "my db".toList "rp.1".toList false false ∧ OnMeasOK [] [] t
 section
 attribute [local irreducible] wp
 example : wp (runHandler 200 .parseShowMeasurementsStatement) (PState.init exMeasText1 [] [])
-    (fun st s' => st = .showMeasurements "my db".toList "rp.1".toList false false (some (nameSrc "my m".toList)) exCond [] 10 3 ∧
+    (fun st s' => st = .showMeasurements "my db".toList "rp.1".toList false false (some (nameSrc "my m".toList)) exCond exSort 10 3 ∧
       RT.Stand s' [eofRune]) (· = .fuel) :=
   showMeasurements_full_print_parse_partial 200 (PState.init exMeasText1 [] []) "my db".toList "rp.1".toList false false
-    (.name "my m".toList) exCond 10 3 [eofRune] (by decide +kernel) (by decide +kernel) (by decide +kernel)
-    (by decide +kernel) (by decide +kernel) (by decide) (by decide) (Follow.eof _ (by decide))
+    (.name "my m".toList) exCond exSort 10 3 [eofRune] (by decide +kernel) (by decide +kernel) (by decide +kernel)
+    (by decide +kernel) (by decide +kernel) (by decide +kernel) (by decide) (by decide) (Follow.eof _ (by decide))
     (init_before exMeasText1 (by decide +kernel))
 
 example : wp (runHandler 200 .parseShowMeasurementsStatement) (PState.init exMeasText2 [] [])
     (fun st s' => st = .showMeasurements [] [] true true (some (.measurement { regex := some "^c/pu".toList })) none [] 0 0 ∧
       RT.Stand s' [eofRune]) (· = .fuel) :=
   showMeasurements_full_print_parse_partial 200 (PState.init exMeasText2 [] []) [] [] true true
-    (.regex "^c/pu".toList) none 0 0 [eofRune] (by decide +kernel) (by decide +kernel) (by decide +kernel)
-    (by decide +kernel) (by decide +kernel) (by decide) (by decide) (Follow.eof _ (by decide))
+    (.regex "^c/pu".toList) none [] 0 0 [eofRune] (by decide +kernel) (by decide +kernel) (by decide +kernel)
+    (by decide +kernel) (by decide +kernel) (by decide +kernel) (by decide) (by decide) (Follow.eof _ (by decide))
     (init_before exMeasText2 (by decide +kernel))
 
 example : wp (runHandler 200 .parseShowMeasurementsStatement) (PState.init exMeasText3 [] [])
     (fun st s' => st = .showMeasurements "db0".toList [] false true none none [] 0 2 ∧ RT.Stand s' [eofRune]) (· = .fuel) :=
   showMeasurements_full_print_parse_partial 200 (PState.init exMeasText3 [] []) "db0".toList [] false true
-    .none none 0 2 [eofRune] (by decide +kernel) (by decide +kernel) (by decide +kernel)
-    (by decide +kernel) (by decide +kernel) (by decide) (by decide) (Follow.eof _ (by decide))
+    .none none [] 0 2 [eofRune] (by decide +kernel) (by decide +kernel) (by decide +kernel)
+    (by decide +kernel) (by decide +kernel) (by decide +kernel) (by decide) (by decide) (Follow.eof _ (by decide))
     (init_before exMeasText3 (by decide +kernel))
 end
 
@@ -3610,32 +3632,32 @@ def optKeyText (op : Token) : Option Expr → Str
   | none => []
   | some key => withKeyText op key
 
-/-- `[ON db] [FROM names] [WITH KEY …] [WHERE cond] [LIMIT l] [OFFSET o] [SLIMIT sl] [SOFFSET so]`. -/
-def showTagKeysText (db : Str) (names : List Str) (op : Token) (key : Option Expr) (c : Option Expr) (l o sl so : Int) : Str :=
-  onDbText db ++ (fromText names ++ (optKeyText op key ++ (whereText c ++ (posText .LIMIT l ++ (posText .OFFSET o ++
-    (posText .SLIMIT sl ++ posText .SOFFSET so))))))
+/-- `[ON db] [FROM names] [WITH KEY …] [WHERE cond] [ORDER BY …] [LIMIT l] [OFFSET o] [SLIMIT sl] [SOFFSET so]`. -/
+def showTagKeysText (db : Str) (names : List Str) (op : Token) (key : Option Expr) (c : Option Expr) (sf : List SortField)
+    (l o sl so : Int) : Str :=
+  onDbText db ++ (fromText names ++ (optKeyText op key ++ (whereText c ++ (orderText sf ++ (posText .LIMIT l ++
+    (posText .OFFSET o ++ (posText .SLIMIT sl ++ posText .SOFFSET so)))))))
 
 theorem showTagKeys_withKey_print_partial (db : Str) (names : List Str) (op : Token) (key : Option Expr) (c : Option Expr)
-    (l o sl so : Int) (h : ∀ m ∈ names, m ≠ []) :
-    (Statement.showTagKeys db (names.map nameSrc) op key c [] l o sl so).print =
-      tx "SHOW TAG KEYS" ++ showTagKeysText db names op key c l o sl so := by
-  have e0 : clauseOrderBy [] = [] := rfl
+    (sf : List SortField) (l o sl so : Int) (h : ∀ m ∈ names, m ≠ []) (hsf : sortOKB sf = true) :
+    (Statement.showTagKeys db (names.map nameSrc) op key c sf l o sl so).print =
+      tx "SHOW TAG KEYS" ++ showTagKeysText db names op key c sf l o sl so := by
   cases key with
   | none =>
-    have p1 : (Statement.showTagKeys db (names.map nameSrc) op none c [] l o sl so).print =
+    have p1 : (Statement.showTagKeys db (names.map nameSrc) op none c sf l o sl so).print =
         tx "SHOW TAG KEYS" ++ clauseOn db ++ clauseFrom (names.map nameSrc) ++ [] ++
-        clauseWhere c ++ clauseOrderBy [] ++ clausePos "LIMIT" l ++ clausePos "OFFSET" o ++ clausePos "SLIMIT" sl ++
+        clauseWhere c ++ clauseOrderBy sf ++ clausePos "LIMIT" l ++ clausePos "OFFSET" o ++ clausePos "SLIMIT" sl ++
         clausePos "SOFFSET" so := rfl
     rw [p1, clauseFrom_names names h, clauseWhere_eq, clauseOn_onDbText, (clausePos_eq l).1, (clausePos_eq o).2.1,
-      (clausePos_eq sl).2.2.1, (clausePos_eq so).2.2.2, e0]
+      (clausePos_eq sl).2.2.1, (clausePos_eq so).2.2.2, clauseOrderBy_eq sf hsf]
     simp only [showTagKeysText, optKeyText, List.append_assoc, List.append_nil, List.nil_append]
   | some k =>
-    have p1 : (Statement.showTagKeys db (names.map nameSrc) op (some k) c [] l o sl so).print =
+    have p1 : (Statement.showTagKeys db (names.map nameSrc) op (some k) c sf l o sl so).print =
         tx "SHOW TAG KEYS" ++ clauseOn db ++ clauseFrom (names.map nameSrc) ++ printTagKey op k ++
-        clauseWhere c ++ clauseOrderBy [] ++ clausePos "LIMIT" l ++ clausePos "OFFSET" o ++ clausePos "SLIMIT" sl ++
+        clauseWhere c ++ clauseOrderBy sf ++ clausePos "LIMIT" l ++ clausePos "OFFSET" o ++ clausePos "SLIMIT" sl ++
         clausePos "SOFFSET" so := rfl
     rw [p1, printTagKey_eq, clauseFrom_names names h, clauseWhere_eq, clauseOn_onDbText, (clausePos_eq l).1,
-      (clausePos_eq o).2.1, (clausePos_eq sl).2.2.1, (clausePos_eq so).2.2.2, e0]
+      (clausePos_eq o).2.1, (clausePos_eq sl).2.2.1, (clausePos_eq so).2.2.2, clauseOrderBy_eq sf hsf]
     simp only [showTagKeysText, optKeyText, List.append_assoc, List.append_nil]
 
 /-- The key clause of SHOW TAG KEYS: absent (the handler then returns the operator `ILLEGAL`), or as in
@@ -3645,16 +3667,17 @@ def optKeyOKB (op : Token) : Option Expr → Bool
   | some key => tagKeyOKB op key
 
 /-- **Print → parse, SHOW TAG KEYS** `[ON db] [FROM m1, …] [WITH KEY = k | != k | =~ /re/ | !~ /re/ | IN (k1, …)]
-[WHERE cond] [LIMIT l] [OFFSET o] [SLIMIT sl] [SOFFSET so]` — `showTagKeys_print_parse_partial` extended by the key
-clause and the series limits. Partial: plain measurement names, `Printable` condition, no `ORDER BY`. -/
+[WHERE cond] [ORDER BY [time] ASC|DESC] [LIMIT l] [OFFSET o] [SLIMIT sl] [SOFFSET so]` — `showTagKeys_print_parse_partial`
+extended by the key clause, `ORDER BY` (`sortOKB`) and the series limits. Partial: plain measurement names, `Printable` condition. -/
 theorem showTagKeys_withKey_print_parse_partial (fuel : Nat) (s : PState) (db : Str) (names : List Str) (op : Token)
-    (key : Option Expr) (c : Option Expr) (l o sl so : Int) (k : Str)
+    (key : Option Expr) (c : Option Expr) (sf : List SortField) (l o sl so : Int) (k : Str)
     (hexdb : Expressible db) (hex : ∀ m ∈ names, Expressible m) (hkey : optKeyOKB op key = true) (hc : CondOK c)
+    (hsf : sortOKB sf = true)
     (hl : 0 ≤ l ∧ l ≤ maxInt64) (ho : 0 ≤ o ∧ o ≤ maxInt64) (hsl : 0 ≤ sl ∧ sl ≤ maxInt64)
     (hso : 0 ≤ so ∧ so ≤ maxInt64) (hk : Follow k showStop)
-    (hs : s.Before (showTagKeysText db names op key c l o sl so ++ k)) :
+    (hs : s.Before (showTagKeysText db names op key c sf l o sl so ++ k)) :
     wp (runHandler fuel .parseShowTagKeysStatement) s
-      (fun st s' => st = .showTagKeys db (names.map nameSrc) op key c [] l o sl so ∧ RT.Stand s' k) (· = .fuel) := by
+      (fun st s' => st = .showTagKeys db (names.map nameSrc) op key c sf l o sl so ∧ RT.Stand s' k) (· = .fuel) := by
   have g6 : Follow (posText .SOFFSET so ++ k) [.EXACT, .CARDINALITY, .ON, .FROM, .COMMA, .WITH, .WHERE, .ORDER, .LIMIT, .OFFSET,
       .SLIMIT] := Follow.opt (kwText_pos _ _) (by decide +kernel) rfl (by decide) (hk.mono (by decide))
   have g5 : Follow (posText .SLIMIT sl ++ (posText .SOFFSET so ++ k)) [.EXACT, .CARDINALITY, .ON, .FROM, .COMMA, .WITH, .WHERE,
@@ -3665,26 +3688,29 @@ theorem showTagKeys_withKey_print_parse_partial (fuel : Nat) (s : PState) (db : 
   have g3 : Follow (posText .LIMIT l ++ (posText .OFFSET o ++ (posText .SLIMIT sl ++ (posText .SOFFSET so ++ k))))
       [.EXACT, .CARDINALITY, .ON, .FROM, .COMMA, .WITH, .WHERE, .ORDER] :=
     Follow.opt (kwText_pos _ _) (by decide +kernel) rfl (by decide) (g4.mono (by decide))
-  have g2 : Follow (whereText c ++ (posText .LIMIT l ++ (posText .OFFSET o ++ (posText .SLIMIT sl ++ (posText .SOFFSET so ++ k)))))
-      [.EXACT, .CARDINALITY, .ON, .FROM, .COMMA, .WITH] :=
-    Follow.opt (kwText_where _) (by decide +kernel) rfl (by decide) (g3.mono (by decide))
-  have gW : Follow (optKeyText op key ++ (whereText c ++ (posText .LIMIT l ++ (posText .OFFSET o ++ (posText .SLIMIT sl ++
-      (posText .SOFFSET so ++ k)))))) [.EXACT, .CARDINALITY, .ON, .FROM, .COMMA] := by
+  have gO : Follow (orderText sf ++ (posText .LIMIT l ++ (posText .OFFSET o ++ (posText .SLIMIT sl ++ (posText .SOFFSET so ++ k)))))
+      [.EXACT, .CARDINALITY, .ON, .FROM, .COMMA, .WITH, .WHERE] :=
+    Follow.opt (kwText_order _) (by decide +kernel) rfl (by decide) (g3.mono (by decide))
+  have g2 : Follow (whereText c ++ (orderText sf ++ (posText .LIMIT l ++ (posText .OFFSET o ++ (posText .SLIMIT sl ++
+      (posText .SOFFSET so ++ k)))))) [.EXACT, .CARDINALITY, .ON, .FROM, .COMMA, .WITH] :=
+    Follow.opt (kwText_where _) (by decide +kernel) rfl (by decide) (gO.mono (by decide))
+  have gW : Follow (optKeyText op key ++ (whereText c ++ (orderText sf ++ (posText .LIMIT l ++ (posText .OFFSET o ++
+      (posText .SLIMIT sl ++ (posText .SOFFSET so ++ k))))))) [.EXACT, .CARDINALITY, .ON, .FROM, .COMMA] := by
     cases key with
     | none => exact g2.mono (by decide)
     | some key => exact Follow.opt (kwText_withKey op key) (by decide +kernel) rfl (by decide) (g2.mono (by decide))
-  have gF : Follow (fromText names ++ (optKeyText op key ++ (whereText c ++ (posText .LIMIT l ++ (posText .OFFSET o ++
-      (posText .SLIMIT sl ++ (posText .SOFFSET so ++ k))))))) [.EXACT, .CARDINALITY, .ON] :=
+  have gF : Follow (fromText names ++ (optKeyText op key ++ (whereText c ++ (orderText sf ++ (posText .LIMIT l ++
+      (posText .OFFSET o ++ (posText .SLIMIT sl ++ (posText .SOFFSET so ++ k)))))))) [.EXACT, .CARDINALITY, .ON] :=
     Follow.opt (kwText_from _) (by decide +kernel) rfl (by decide) (gW.mono (by decide))
-  have hs0 : RT.Stand s (onDbText db ++ (fromText names ++ (optKeyText op key ++ (whereText c ++ (posText .LIMIT l ++
-      (posText .OFFSET o ++ (posText .SLIMIT sl ++ (posText .SOFFSET so ++ k)))))))) := by
+  have hs0 : RT.Stand s (onDbText db ++ (fromText names ++ (optKeyText op key ++ (whereText c ++ (orderText sf ++
+      (posText .LIMIT l ++ (posText .OFFSET o ++ (posText .SLIMIT sl ++ (posText .SOFFSET so ++ k))))))))) := by
     have := hs.stand
     simpa only [showTagKeysText, List.append_assoc] using this
   obtain ⟨s3, h3, st3⟩ := parseOnDb_stand s db _ hexdb (gF.mono (by decide)) hs0
   obtain ⟨s4, h4, st4⟩ := parseOptFrom_names s3 names _ hex (gW.mono (by decide)) st3
   -- the common tail
-  have tail : ∀ s6 : PState, RT.Stand s6 (whereText c ++ (posText .LIMIT l ++ (posText .OFFSET o ++ (posText .SLIMIT sl ++
-      (posText .SOFFSET so ++ k))))) →
+  have tail : ∀ s6 : PState, RT.Stand s6 (whereText c ++ (orderText sf ++ (posText .LIMIT l ++ (posText .OFFSET o ++
+      (posText .SLIMIT sl ++ (posText .SOFFSET so ++ k)))))) →
       wp (do
         let cond ← parseCondition fuel
         let sort ← parseOrderBy
@@ -3693,14 +3719,14 @@ theorem showTagKeys_withKey_print_parse_partial (fuel : Nat) (s : PState) (db : 
         let slimit ← parseOptTokInt .SLIMIT
         let soffset ← parseOptTokInt .SOFFSET
         pure (Statement.showTagKeys db (names.map nameSrc) op key cond sort limit offset slimit soffset)) s6
-        (fun st s' => st = Statement.showTagKeys db (names.map nameSrc) op key c [] l o sl so ∧ RT.Stand s' k)
+        (fun st s' => st = Statement.showTagKeys db (names.map nameSrc) op key c sf l o sl so ∧ RT.Stand s' k)
         (· = .fuel) := by
     intro s6 st6
     rw [wp_bind]
-    refine wp_mono (parseCondition_print fuel s6 c _ hc (g3.mono (by decide)) st6) ?_ (fun _ h => h)
+    refine wp_mono (parseCondition_print fuel s6 c _ hc (gO.mono (by decide)) st6) ?_ (fun _ h => h)
     intro c' s7 ⟨hc', st7⟩
     subst hc'
-    obtain ⟨s8, h8, st8⟩ := parseOrderBy_absent s7 _ (g3.mono (by decide)) st7
+    obtain ⟨s8, h8, st8⟩ := parseOrderBy_print s7 sf _ hsf (g3.mono (by decide)) st7
     obtain ⟨s9, h9, st9⟩ := parseOptTokInt_print .LIMIT (by decide +kernel) s8 l _ hl.1 hl.2 (g4.mono (by decide)) st8
     obtain ⟨s10, h10, st10⟩ := parseOptTokInt_print .OFFSET (by decide +kernel) s9 o _ ho.1 ho.2 (g5.mono (by decide)) st9
     obtain ⟨s11, h11, st11⟩ := parseOptTokInt_print .SLIMIT (by decide +kernel) s10 sl _ hsl.1 hsl.2 (g6.mono (by decide))
@@ -3722,11 +3748,11 @@ theorem showTagKeys_withKey_print_parse_partial (fuel : Nat) (s : PState) (db : 
     simp only [t5, if_false, pure_bind]
     exact tail (unsc s5) st5
   | some key =>
-    have hst : RT.Starts (withKeyText op key ++ (whereText c ++ (posText .LIMIT l ++ (posText .OFFSET o ++
-        (posText .SLIMIT sl ++ (posText .SOFFSET so ++ k)))))) .WITH := by
+    have hst : RT.Starts (withKeyText op key ++ (whereText c ++ (orderText sf ++ (posText .LIMIT l ++ (posText .OFFSET o ++
+        (posText .SLIMIT sl ++ (posText .SOFFSET so ++ k))))))) .WITH := by
       have := starts_kw .WITH (' ' :: (Token.KEY.str ++ ' ' :: (op.str ++ ' ' :: (tagKeyValText key ++ (whereText c ++
-        (posText .LIMIT l ++ (posText .OFFSET o ++ (posText .SLIMIT sl ++ (posText .SOFFSET so ++ k))))))))) (by decide +kernel)
-        (WordEnd.blank _)
+        (orderText sf ++ (posText .LIMIT l ++ (posText .OFFSET o ++ (posText .SLIMIT sl ++ (posText .SOFFSET so ++ k))))))))))
+        (by decide +kernel) (WordEnd.blank _)
       simpa only [withKeyText, List.append_assoc, List.cons_append] using this
     obtain ⟨lx, s5, h5, t5, st5, _⟩ := RT.scanIW_starts s4 _ .WITH st4 hst
     obtain ⟨s6, h6, b6⟩ := parseTagKeyExpr_print (unsc s5) op key _ hkey g2.tokEnd.1 st5
@@ -3738,19 +3764,20 @@ theorem showTagKeys_withKey_print_parse_partial (fuel : Nat) (s : PState) (db : 
     exact tail s6 b6.stand
 
 /-- Non-vacuity: `SHOW TAG KEYS ON "my db" FROM cpu, "my m" WITH KEY =~ /^h/ WHERE … LIMIT 10 OFFSET 3 SLIMIT 2 SOFFSET 1`. -/
-def exTagKeysText : Str := showTagKeysText "my db".toList exNames .EQREGEX (some (.regex "^h".toList)) exCond 10 3 2 1
+def exTagKeysText : Str := showTagKeysText "my db".toList exNames .EQREGEX (some (.regex "^h".toList)) exCond [⟨[], false⟩] 10 3 2 1
 
 example : exTagKeysText = (" ON \"my db\" FROM cpu, \"my m\" WITH KEY =~ /^h/ WHERE host = 'a' AND (x > -1 OR y =~ /^b/) " ++
-    "LIMIT 10 OFFSET 3 SLIMIT 2 SOFFSET 1").toList := by decide +kernel
+    "ORDER BY DESC LIMIT 10 OFFSET 3 SLIMIT 2 SOFFSET 1").toList := by decide +kernel
 
 section
 attribute [local irreducible] wp
 example : wp (runHandler 200 .parseShowTagKeysStatement) (PState.init exTagKeysText [] [])
-    (fun st s' => st = .showTagKeys "my db".toList (exNames.map nameSrc) .EQREGEX (some (.regex "^h".toList)) exCond [] 10 3 2 1 ∧
-      RT.Stand s' [eofRune]) (· = .fuel) :=
+    (fun st s' => st = .showTagKeys "my db".toList (exNames.map nameSrc) .EQREGEX (some (.regex "^h".toList)) exCond
+      [⟨[], false⟩] 10 3 2 1 ∧ RT.Stand s' [eofRune]) (· = .fuel) :=
   showTagKeys_withKey_print_parse_partial 200 (PState.init exTagKeysText [] []) "my db".toList exNames .EQREGEX
-    (some (.regex "^h".toList)) exCond 10 3 2 1 [eofRune] (by decide +kernel) (by decide +kernel) (by decide +kernel)
-    (by decide +kernel) (by decide) (by decide) (by decide) (by decide) (Follow.eof _ (by decide))
+    (some (.regex "^h".toList)) exCond [⟨[], false⟩] 10 3 2 1 [eofRune] (by decide +kernel) (by decide +kernel)
+    (by decide +kernel) (by decide +kernel) (by decide +kernel) (by decide) (by decide) (by decide) (by decide)
+    (Follow.eof _ (by decide))
     (init_before exTagKeysText (by decide +kernel))
 end
 
